@@ -105,3 +105,8 @@ pub fn scratch_path(tag: &str) -> String {
     let _ = std::fs::create_dir_all(&dir);
     format!("{}/h8mon-{}-{}", dir, std::process::id(), tag)
 }
+
+/// the repository's own release binary, built by the driver next to the harness output
+pub fn real_binary() -> String {
+    std::env::var("VERIF_REALBIN").unwrap_or_else(|_| "/verif/target/bin/release/koge29_h8-3069f_emulator".to_string())
+}
